@@ -781,6 +781,13 @@ ENTRIES += [
 ]
 
 ENTRIES += [
+    # ---------------------------------------------------------------- C14.11 foreign inputs are rejected, not raised on
+    M("C14-try-cast-typeerror-only", "C14", "C14.11", ("lerax/space/utils.py", "    except (TypeError, ValueError, OverflowError):", "    except TypeError:")),
+    V("C14-v-try-cast-catches-exception", "C14", ("lerax/space/utils.py", "    except (TypeError, ValueError, OverflowError):", "    except Exception:")),
+    M("C14-discrete-contains-looks-before-cast", "C14", "C14.11", ("lerax/space/discrete.py", "        x = try_cast(x)\n        if x is None:\n            return jnp.array(False)\n\n        if x.ndim != 0:", "        if getattr(x, \"ndim\", 0) != 0:\n            return jnp.array(False)\n        x = try_cast(x)\n        if x is None:\n            return jnp.array(False)\n\n        if x.ndim != 0:")),
+]
+
+ENTRIES += [
     # ---------------------------------------------------------------- later additions
     M("C15-sac-bounds-swapped", "C15", "C15.3", (PS, "                high=self.action_space.high,\n                low=self.action_space.low,\n            )\n        else:", "                high=self.action_space.low,\n                low=self.action_space.high,\n            )\n        else:")),
     M("C13-flatten-wrong-size", "C13", "C13.5", (WTO, "shape=(int(jnp.asarray(self.env.observation_space.flat_size)),)", "shape=(int(jnp.asarray(self.env.action_space.flat_size)),)")),
